@@ -1008,6 +1008,8 @@ def check_c19(tier, seed, log=print):
     run.coverage['rejected_for_another_reason_than_expected'] = reason_mismatch[:10]
     import assemble_tie
     run.coverage['leaf_assembly_model'] = assemble_tie.tie_specs(run)
+    import typesubsttie
+    run.coverage['type_substitution_model'] = typesubsttie.tie(run, seed, 120 if tier == 'quick' else 2500)
     run.coverage.update(dict(evaluations=n + len(ui_idx), distinct_nontrivial=len(nontriv), verdicts=verdicts, rustc_cases=len(ui_idx),
                              greedy_decisions_compared=tie,
                              rule='malformed stream: variant shapes (empty/multi/named fields), malformed and duplicated attribute arguments, #[logos(...)] shapes, generics, nullable patterns, look-behind at the token start, '
